@@ -4,6 +4,7 @@ probe kernels, validation against Trace_Engine.tla, and routing of rejections to
 property whose conjunct family failed."""
 from __future__ import annotations
 
+import copy
 import re
 
 from harness import parallel
@@ -157,6 +158,25 @@ def validate(chk: Check, traces, tag: str):
             owner = next((p for p, f in FAMILY.items() if r.conjunct in f), "?")
             chk.note(f"trace {r.tid} stopped at event {r.line} on conjunct '{r.conjunct}' owned by {owner}; "
                      f"not a verdict of {chk.prop}")
+    # traces that stopped on a conjunct owned by another property are re-validated leniently
+    # (per-call observations unchecked) so that this property's own conjuncts are still reached
+    stuck = [copy.deepcopy(r.trace) for r in rejects if r.conjunct not in mine]
+    if stuck:
+        for t in stuck:
+            t["hdr"]["lenient"] = True
+        rej2, st2 = validate_traces("Trace_Engine.tla", stuck, tag=f"{chk.prop}-{tag}-lenient",
+                                    cfg_extra="CONSTANTS FlagSet = TRUE\n")
+        chk.states += st2["states"]
+        chk.transitions += st2["transitions"]
+        for r in rej2:
+            if r.conjunct in mine:
+                ev = r.trace["ev"][r.line - 1] if r.line - 1 < len(r.trace["ev"]) else {}
+                chk.violation(f"engine:{r.conjunct}:{ev.get('ev')}",
+                              f"engine trace (lenient re-validation) rejected at event {r.line} ({ev.get('ev')}), "
+                              f"failing conjunct '{r.conjunct}'",
+                              {"kind": "rejected_trace", "trace_spec": "Trace_Engine.tla", "line": r.line,
+                               "conjunct": r.conjunct, "trace": r.trace, "cfg_extra": "CONSTANTS FlagSet = TRUE\n"})
+                other -= 1
     chk.tv_runs.append({"trace_spec": "Trace_Engine.tla", "tag": tag, "traces": st["traces"],
                         "events": st["events"], "rejected_own_family": len(rejects) - other,
                         "stopped_in_other_family": other, "wall_s": round(st["wall_s"], 1)})
